@@ -33,9 +33,11 @@ extern void * realloc(void *, size_t);
 #define CTORV 192
 #define DTORV 221
 
-static struct cstl_vector vec[2];
-static struct cstl_string ns[2];
-static struct cstl_wstring ws[2];
+/* the second object of each kind is initialised by the header's compile-time
+ * initializer and never by its init function (until an `init` operation) */
+static struct cstl_vector vec[2] = { [1] = CSTL_VECTOR_INITIALIZER(int) };
+static struct cstl_string ns[2] = { [1] = CSTL_STRING_INITIALIZER(cstl_string_char_t) };
+static struct cstl_wstring ws[2] = { [1] = CSTL_STRING_INITIALIZER(cstl_wstring_char_t) };
 
 static int in_script;
 static char uplan[512];
@@ -428,7 +430,10 @@ static void reset(void)
     h_alloc_reset();
     uplan[0] = 0;
     upos = 0;
-    for (i = 0; i < 2; i++) {
+    for (i = 0; i < 1; i++) {
+        H_POISON_OBJ(vec[i]);
+        H_POISON_OBJ(ns[i]);
+        H_POISON_OBJ(ws[i]);
         cstl_vector_init(&vec[i], 4);
         cstl_string_init(&ns[i]);
         cstl_wstring_init(&ws[i]);
